@@ -133,4 +133,18 @@ PROPS = {
         "stages": [{"driver": "ro", "stage": "", "flavour": "plain-O0"}, {"driver": "ro", "stage": "", "flavour": "plain-O2"},
                    {"driver": "thr", "stage": "readers", "flavour": "tsan", "shards": 4}],
     },
+    "C19": {
+        "level": "exploration",
+        "assumptions": TRUST + ["stack budget per case: 64 KiB + 512 B x L; empty definite containers are never placed at the boundary (they never become open)"],
+        "stages": [{"driver": "nest", "stage": "", "flavour": fl, "L": L, "shards": 8 if L >= 64 else 2, "tiers": tiers}
+                   for L, tiers in ((1, ("quick", "thorough")), (2, ("thorough",)), (3, ("quick", "thorough")), (8, ("thorough",)), (64, ("thorough",)), (2048, ("quick", "thorough")))
+                   for fl in ("plain-O0", "plain-O2")],
+    },
+    "C20": {
+        "level": "exploration",
+        "assumptions": TRUST + ["the property's own quantifier cites an SMT proof over 2^128 operand pairs; that is a different technique family and is not used: at 64 bit this is a dense sample, and the narrow-width exhaustion shows the guard algorithm is correct at 8 and 16 bit"],
+        "stages": [{"driver": "arith", "stage": "narrow", "flavour": "ubsan-O2"},
+                   {"driver": "arith", "stage": "grid", "flavour": "ubsan-O2"},
+                   {"driver": "arith", "stage": "e2e", "flavour": "asan"}],
+    },
 }
